@@ -71,6 +71,7 @@ class LemmaSet:
         s = z3.Solver()
         s.set("timeout", self.query_timeout_ms)
         s.add(*pc)
+        s.add(*self.ex.tc.assumptions)
         s.add(z3.Not(cond))
         t0 = time.time()
         r = s.check()
@@ -103,8 +104,18 @@ class LemmaSet:
         s = z3.Solver()
         s.set("timeout", self.query_timeout_ms)
         s.add(*o.st.pc)
+        s.add(*self.ex.tc.assumptions)
         if cond is not None:
             s.add(cond)
+        return s.check() == z3.sat
+
+    def jointly_feasible(self, o1, o2):
+        s = z3.Solver()
+        s.set("timeout", self.query_timeout_ms)
+        s.add(*o1.st.pc)
+        s.add(*o2.st.pc)
+        s.add(*self.ex.tc.assumptions)
+        self.ex.queries += 1
         return s.check() == z3.sat
 
     def witness(self, outs, pred, what):
@@ -220,10 +231,22 @@ def model_dict(m):
 
 
 def word_map(ex, loader):
-    """{word: (callee text, immediate)} read off the MIR of a `load`-style function."""
-    f = ex.funcs[loader] if loader in ex.funcs else [v for n, v in ex.funcs.items() if n.endswith(loader)][0]
+    """{word: (function name, immediate)} read off the MIR of a `load`-style function. Closures are
+    identified by position: the k-th closure passed to defword is `<loader>::{closure#k}` (macro-expanded
+    closures share their source span, so the span is not a usable key)."""
+    f = ex.funcs[loader] if loader in ex.funcs else [v for n, v in ex.funcs.items() if n.endswith(loader) and not n.startswith(("const ", "promoted"))][0]
     out = {}
-    for b in f.blocks.values():
+    span_seen = {}
+    by_span = {}
+    k = 0
+    while "%s::{closure#%d}" % (f.name, k) in ex.funcs:
+        cf = ex.funcs["%s::{closure#%d}" % (f.name, k)]
+        msp = re.search(r"(\{closure@[^}]*\})", cf.params[0][1]) if cf.params else None
+        if msp:
+            by_span.setdefault(msp.group(1), []).append(cf.name)
+        k += 1
+    for bname in sorted(f.blocks, key=lambda b: int(b[2:])):
+        b = f.blocks[bname]
         t = b.term
         if not t or t[0] != "call":
             continue
@@ -252,10 +275,25 @@ def word_map(ex, loader):
             return None
         w = const_of(args[1])
         c = const_of(args[2])
-        if w is None or c is None or not w.startswith('"'):
+        mc = re.match(r"ZeroSized: (\{closure@[^}]*\})", c) if c is not None else None
+        if mc:
+            # k-th use of this source span <-> k-th closure body (by closure number) with that span
+            span = mc.group(1)
+            k = span_seen.get(span, 0)
+            span_seen[span] = k + 1
+            bodies = by_span.get(span, [])
+            tgt = bodies[k] if k < len(bodies) else None
+        else:
+            tgt = c
+        if w is None or tgt is None or not w.startswith('"'):
             continue
-        word = w[1:-1]
-        m = re.match(r"ZeroSized: (\{closure@[^}]*\})", c)
-        tgt = m.group(1) if m else c
-        out[word] = (tgt, callee.endswith("def_immediate"))
+        out[w[1:-1]] = (tgt, callee.endswith("def_immediate"))
     return out
+
+
+def word_call(L, target, xs):
+    """(function, argument list) to invoke a word's native implementation on the state reference xs"""
+    fn = L.fn(target)
+    if "{closure#" in fn.name:
+        return fn, [FnVal("env:" + fn.name), xs]
+    return fn, [xs]
